@@ -75,6 +75,8 @@ def plan(tier, seed):
         shards.append(("feat", mt, 4))
         if tier == "thorough":
             shards.append(("feat", mt, 5))
+    # the classifier left by learn() (every RNG answer sequence) is a trained classifier too
+    shards += [("learn", pi) for pi in range(24)]
     # one long tie-free chain: a forest whose optimum paths are more than a thousand arcs deep
     shards.append(("chain", 1100, 2))
     shards.append(("chain", 40, 20))
@@ -303,6 +305,31 @@ def run_case(prog, res=None, model=None):
     return None
 
 
+def judge_learned(prog, obs, Wd, labels, model):
+    """Classifier left by learn(): when the samples its nodes hold are at pairwise distinct positive
+    distances, every node carries its own label and predicting those samples returns the labels."""
+    n = len(labels)
+    ws = [Wd[a][b] for a, b in E.edges(n)]
+    if len(set(ws)) != len(ws) or min(ws) <= 0 or len(set(labels)) < 2:
+        return None
+    prog = dict(prog, model="SupervisedOPF")
+    got = [nd["plabel"] for nd in obs["nodes"]]
+    if got != list(labels):
+        return viol(prog, "classifier left by learn(): the assigned labels are %s, the labels of the samples "
+                    "it holds are %s" % (got, list(labels)), "assigned label differs from true label (after learn)")
+    X = np.array([nd.features.copy() for nd in model.subgraph.nodes], dtype=float)
+    try:
+        preds = [int(p) for p in model.predict(X)]
+    except Horizon:
+        raise
+    except Exception as ex:
+        return viol(prog, "predict raised %r" % (ex,), "predict raised %s" % type(ex).__name__)
+    if preds != list(labels):
+        return viol(prog, "classifier left by learn(): predicting the samples it holds returned %s, their labels "
+                    "are %s" % (preds, list(labels)), "resubstitution error (after learn)")
+    return None
+
+
 def viol(prog, prob, sym):
     mt = prog.get("metric", "pre")
     site = prog["model"] + ("[chord]" if mt == "chord" else "")
@@ -320,6 +347,8 @@ def _key(prog):
 
 def run(shard, seed):
     res = Result()
+    if shard[0] == "learn":
+        return c01.run_learn(shard, seed, res, judge_learned)
     k = 0
     for prog in programs(shard, seed):
         try:
@@ -335,8 +364,7 @@ def run(shard, seed):
         k += 1
         if v:
             prev = _PREV.get(_key(prog)) if _key(prog) is not None else None
-            if prev is not None and "previous" not in v["program"]:
-                v["program"] = dict(v["program"], previous=prev)
+            sup.with_history(v, prev)
             res.violations.append(v)
             if res.full:
                 break
@@ -345,4 +373,6 @@ def run(shard, seed):
 
 
 def replay(case):
+    if "learn" in case["program"]:
+        return c01.learn_case(case["program"], judge_learned)[1]
     return sup.replay_with_history(run_case, case["program"])
